@@ -8,6 +8,7 @@ import EaselModel.Vec.Kahan
 import EaselModel.Vec.Mat
 import EaselModel.Vec.GenOrder
 import EaselModel.Vec.CompareReal
+import EaselModel.Vec.GenFloat
 /-! # C20 — vector and SIMD numeric kernels compute their definition for every input
 
 Property theorems only (proofs are glue on the lemmas of `Simd/Lemmas.lean`, `Simd/LogExpLemmas.lean`, `Vec/Real.lean`, `Vec/XReal.lean`).
@@ -534,6 +535,54 @@ theorem gen_mat_Compare_flat {α : Type} [VCmp α] (A B : Array α) (M N : Int) 
     esl_mat_DCompare A B M N tol = esl_vec_DCompare A B (M * N) tol ∧ esl_mat_FCompare A B M N tol = esl_vec_FCompare A B (M * N) tol ∧
     esl_mat_ICompare A B M N = esl_vec_ICompare A B (M * N) :=
   ⟨(Vec.gen_mat_compare_flat A B M N tol).1, (Vec.gen_mat_compare_flat A B M N tol).2, Vec.gen_mat_icompare_flat A B M N⟩
+
+/-! ### the probability / log-space routines over `double`, as REGENERATED from esl_vectorops.c on every run -/
+/-- for every element type with the floating-point operations: the regenerated `esl_vec_D{Exp,Exp2,Log,Log2,Entropy,Norm,LogSum,Log2Sum,
+    LogNorm,Log2Norm}` compute the functions of the hand model (to which the real-number theorems of parts B and C apply).  `hu`, `hw`
+    spell the two places where the hand model uses a class operation for a C sub-expression: `1. / (double) n` and `x > max - 500.` -/
+theorem gen_DExpLog {α : Type} [VInf α] (v : Array α) :
+    (∃ r, esl_vec_DExp v v.size = some r ∧ r.toList = vexp v.toList) ∧ (∃ r, esl_vec_DExp2 v v.size = some r ∧ r.toList = vexp2 v.toList) ∧
+    (∃ r, esl_vec_DLog v v.size = some r ∧ r.toList = vlog v.toList) ∧ (∃ r, esl_vec_DLog2 v v.size = some r ∧ r.toList = vlog2 v.toList) :=
+  ⟨Vec.gen_DExp v, Vec.gen_DExp2 v, Vec.gen_DLog v, Vec.gen_DLog2 v⟩
+theorem gen_DEntropy {α : Type} [VNum α] (v : Array α) : esl_vec_DEntropy v v.size = some (entropy v.toList) := Vec.gen_DEntropy v
+theorem gen_DNorm {α : Type} [VNum α] (hu : ∀ n : Nat, (VNum.uniform n : α) = VNum.ofNat 1 / VNum.ofNat n) (v : Array α) :
+    ∃ r, esl_vec_DNorm v v.size = some r ∧ r.toList = norm v.toList := Vec.gen_DNorm hu v
+theorem gen_DLogSum {α : Type} [VInf α] (hw : ∀ m x : α, VInf.inWindow m x = VOrd.lt (m - VNum.ofNat 500) x) (v : Array α) :
+    esl_vec_DLogSum v v.size = logSum v.toList ∧ esl_vec_DLog2Sum v v.size = log2Sum v.toList := ⟨Vec.gen_DLogSum hw v, Vec.gen_DLog2Sum hw v⟩
+theorem gen_DLogNorm {α : Type} [VInf α] (hu : ∀ n : Nat, (VNum.uniform n : α) = VNum.ofNat 1 / VNum.ofNat n)
+    (hw : ∀ m x : α, VInf.inWindow m x = VOrd.lt (m - VNum.ofNat 500) x) (v : Array α) :
+    (esl_vec_DLogNorm v v.size).map Array.toList = logNorm v.toList ∧ (esl_vec_DLog2Norm v v.size).map Array.toList = log2Norm v.toList :=
+  ⟨Vec.gen_DLogNorm hu hw v, Vec.gen_DLog2Norm hu hw v⟩
+
+/-- the two hypotheses hold at the real / extended-real instances -/
+theorem real_uniform (n : Nat) : (VNum.uniform n : ℝ) = VNum.ofNat 1 / VNum.ofNat n := by
+  show (1 : ℝ) / (n : ℝ) = ((1 : ℕ) : ℝ) / (n : ℝ); simp
+section atWinD
+attribute [local instance] winD
+theorem xr_uniform (n : Nat) : (VNum.uniform n : XR) = VNum.ofNat 1 / VNum.ofNat n := by
+  show XR.div (XR.fin 1) (XR.fin n) = XR.div (XR.fin ((1 : ℕ) : ℝ)) (XR.fin (n : ℝ)); simp
+theorem xr_window (m x : XR) : VInf.inWindow m x = VOrd.lt (m - VNum.ofNat 500) x := by
+  show XR.lt (XR.sub m (XR.fin 500)) x = XR.lt (XR.sub m (XR.fin ((500 : ℕ) : ℝ))) x; simp
+
+/-- the regenerated code meets the real-number specifications: `DNorm` sums to 1, `DEntropy` is `-Σ p log2 p`, `DLogSum` is `log Σ exp`
+    within `n e^-500` with `-inf` entries, `DLogNorm` is the softmax -/
+theorem gen_DNorm_real (v : Array ℝ) (h : v.toList.sum ≠ 0) :
+    ∃ r, esl_vec_DNorm v v.size = some r ∧ r.toList = v.toList.map (· / v.toList.sum) ∧ r.toList.sum = 1 := by
+  obtain ⟨r, hr, hl⟩ := Vec.gen_DNorm real_uniform v
+  have := Vec.norm_of_sum_ne_zero v.toList h
+  exact ⟨r, hr, by rw [hl, this.1], by rw [hl]; exact this.2⟩
+theorem gen_DEntropy_real (v : Array ℝ) :
+    esl_vec_DEntropy v v.size = some ((v.toList.map fun x => if 0 < x then -(x * Real.logb 2 x) else 0).sum) := by
+  rw [Vec.gen_DEntropy, Vec.entropy_eq]
+theorem gen_DLogSum_spec (v : Array XR) (hv : ∀ x ∈ v.toList, x.isLogP) (hfin : finites v.toList ≠ []) :
+    ∃ r : ℝ, esl_vec_DLogSum v v.size = some (XR.fin r) ∧
+      |r - Real.log ((finites v.toList).map Real.exp).sum| ≤ v.toList.length * Real.exp (-500) := by
+  rw [Vec.gen_DLogSum xr_window v]; exact Vec.logSum_spec v.toList hv hfin
+theorem gen_DLogNorm_spec (v : Array XR) (hv : ∀ x ∈ v.toList, x.isLogP) (hfin : finites v.toList ≠ []) :
+    (esl_vec_DLogNorm v v.size).map Array.toList = some ((softmax v.toList).map XR.fin) ∧ (softmax v.toList).sum = 1 := by
+  rw [Vec.gen_DLogNorm xr_uniform xr_window v]; exact Vec.logNorm_spec v.toList hv hfin
+end atWinD
+example : (#[1, 2, 3] : Array ℝ).toList.sum ≠ 0 := by norm_num
 
 end generated
 
